@@ -101,6 +101,9 @@ type c11Pair struct {
 	BlkA string `json:"blkA"`
 	BlkB string `json:"blkB"`
 	Dv   string `json:"dv"` // the item NewDuplicateVoteEvidence must produce from the chain facts
+	// what a pool that took the validator set of h+1 would produce instead: an item id, the
+	// same as dv when the sets agree on the signer, "nil" when the signer left the set
+	Late string `json:"late"`
 }
 
 type c11Ctx struct {
@@ -870,8 +873,10 @@ func (w *c11World) exec2(out *c11Writer, run int, op c11Op) (bool, map[string]in
 			ev["ev"], ev["id"], ev["res"], ev["novals"] = "VerifyDV", op.ID, res, err != nil
 			break
 		}
-		err := w.pool.AddEvidence(it)
-		ev["ev"], ev["id"], ev["res"], ev["why"], ev["detail"] = "Add", op.ID, c11Res(err), c11Why(err), c11Detail(err)
+		var err error
+		pk := c11Guard(func() { err = w.pool.AddEvidence(it) })
+		ev["ev"], ev["id"] = "Add", op.ID
+		c11Outcome(ev, err, pk)
 	case "Check":
 		l, ok := w.evs(op.IDs)
 		if !ok || len(l) == 0 {
@@ -882,16 +887,21 @@ func (w *c11World) exec2(out *c11Writer, run int, op c11Op) (bool, map[string]in
 				return false, nil
 			}
 		}
-		err := w.pool.CheckEvidence(l)
-		ev["ev"], ev["ids"], ev["res"], ev["why"], ev["detail"] = "Check", op.IDs, c11Res(err), c11Why(err), c11Detail(err)
+		var err error
+		pk := c11Guard(func() { err = w.pool.CheckEvidence(l) })
+		ev["ev"], ev["ids"] = "Check", op.IDs
+		c11Outcome(ev, err, pk)
 	case "Report":
 		p, ok := w.pairs[op.Pair]
 		if !ok {
 			return false, nil
 		}
-		w.pool.ReportConflictingVotes(p[0], p[1])
-		w.buf = append(w.buf, op.Pair)
+		pk := c11Guard(func() { w.pool.ReportConflictingVotes(p[0], p[1]) })
+		if pk == "" {
+			w.buf = append(w.buf, op.Pair)
+		}
 		ev["ev"], ev["pair"] = "Report", op.Pair
+		c11Outcome(ev, nil, pk)
 	case "Update":
 		l, ok := w.evs(op.IDs)
 		if !ok {
@@ -908,9 +918,13 @@ func (w *c11World) exec2(out *c11Writer, run int, op c11Op) (bool, map[string]in
 		if w.bs.Height() < to {
 			w.bs.setTip(to)
 		}
-		w.pool.Update(w.stateAt(to), l)
-		w.buf = nil
-		if !op.Crash {
+		pk := c11Guard(func() { w.pool.Update(w.stateAt(to), l) })
+		c11Outcome(ev, nil, pk)
+		if pk == "" {
+			w.buf = nil
+		}
+		// a node whose Update panicked never reaches the state save
+		if !op.Crash && pk == "" {
 			for s := w.saved + 1; s <= to; s++ {
 				if err := w.sstore.Save(w.stateAt(s)); err != nil {
 					w.t.Fatal(err)
@@ -931,7 +945,10 @@ func (w *c11World) exec2(out *c11Writer, run int, op c11Op) (bool, map[string]in
 				mb = op.MB * w.maxW
 			}
 		}
-		got, sz := w.pool.PendingEvidence(mb)
+		var got []types.Evidence
+		var sz int64
+		pk := c11Guard(func() { got, sz = w.pool.PendingEvidence(mb) })
+		c11Outcome(ev, nil, pk)
 		ids := []string{}
 		for _, g := range got {
 			ids = append(ids, w.idOfEv(g))
@@ -941,14 +958,18 @@ func (w *c11World) exec2(out *c11Writer, run int, op c11Op) (bool, map[string]in
 		if len(w.tickets) > 0 {
 			return false, nil
 		}
-		p, err := NewPool(w.edb, w.sstore, w.bs)
-		if err != nil {
-			ev["ev"], ev["res"], ev["detail"] = "RestartFailed", "err", c11Detail(err)
+		var p *Pool
+		var err error
+		pk := c11Guard(func() { p, err = NewPool(w.edb, w.sstore, w.bs) })
+		if err != nil || pk != "" {
+			ev["ev"] = "RestartFailed"
+			c11Outcome(ev, err, pk)
 			break
 		}
 		w.pool = p
 		w.buf = nil
 		ev["ev"] = "Restart"
+		c11Outcome(ev, nil, "")
 	case "AddBegin":
 		it, ok := w.items[op.ID]
 		if !ok || !w.basic(op.ID) || w.tickets[op.Tk] != nil {
@@ -961,7 +982,10 @@ func (w *c11World) exec2(out *c11Writer, run int, op c11Op) (bool, map[string]in
 			w.bs.parked[c11Gid()] = tk.gate
 			w.bs.mtx.Unlock()
 			close(started)
-			err := w.pool.AddEvidence(it)
+			var err error
+			if pk := c11Guard(func() { err = w.pool.AddEvidence(it) }); pk != "" {
+				err = c11Panic(pk)
+			}
 			w.bs.mtx.Lock()
 			delete(w.bs.parked, c11Gid())
 			w.bs.mtx.Unlock()
@@ -975,7 +999,7 @@ func (w *c11World) exec2(out *c11Writer, run int, op c11Op) (bool, map[string]in
 		case err := <-tk.done:
 			// finished without reaching the store step (ignored or rejected)
 			stage = "returned"
-			ev["res"], ev["why"], ev["detail"] = c11Res(err), c11Why(err), c11Detail(err)
+			c11OutcomeErr(ev, err)
 		}
 		ev["ev"], ev["id"], ev["tk"], ev["stage"] = "AddBegin", op.ID, op.Tk, stage
 		if stage == "parked" {
@@ -989,7 +1013,8 @@ func (w *c11World) exec2(out *c11Writer, run int, op c11Op) (bool, map[string]in
 		close(tk.gate.release)
 		err := <-tk.done
 		delete(w.tickets, op.Tk)
-		ev["ev"], ev["id"], ev["tk"], ev["res"], ev["why"], ev["detail"] = "AddEnd", tk.id, op.Tk, c11Res(err), c11Why(err), c11Detail(err)
+		ev["ev"], ev["id"], ev["tk"] = "AddEnd", tk.id, op.Tk
+		c11OutcomeErr(ev, err)
 	default:
 		return false, nil
 	}
@@ -1003,6 +1028,45 @@ func c11Res(err error) string {
 		return "ok"
 	}
 	return "err"
+}
+
+// c11Guard runs one call of product code.  A panic of the product code is an OUTCOME of the
+// call ("panic"), logged like any other so that TLC judges it; it does not end the run.
+func c11Guard(f func()) (panicked string) {
+	defer func() {
+		if r := recover(); r != nil {
+			panicked = fmt.Sprint(r)
+			if len(panicked) > 140 {
+				panicked = panicked[:140]
+			}
+			if panicked == "" {
+				panicked = "panic"
+			}
+		}
+	}()
+	f()
+	return ""
+}
+
+type c11Panic string
+
+func (p c11Panic) Error() string { return string(p) }
+
+func c11OutcomeErr(ev map[string]interface{}, err error) {
+	if pk, ok := err.(c11Panic); ok {
+		c11Outcome(ev, nil, string(pk))
+		return
+	}
+	c11Outcome(ev, err, "")
+}
+
+// outcome fields of a call: res = ok | err | panic
+func c11Outcome(ev map[string]interface{}, err error, panicked string) {
+	if panicked != "" {
+		ev["res"], ev["why"], ev["detail"] = "panic", "none", panicked
+		return
+	}
+	ev["res"], ev["why"], ev["detail"] = c11Res(err), c11Why(err), c11Detail(err)
 }
 
 func (w *c11World) finish(out *c11Writer, run int) {
